@@ -42,6 +42,7 @@ class SecureGateway(SimGateway):
         self.next_sid = 1
         self.bad_dev_mac = False                   # scripted: SessionResponse with a wrong device-authentication MAC
         self.auth_result = ST_AUTH_SUCCESS
+        self.auth_results: list[int] = []          # scripted status codes of the next authentications
         self.violations: list[tuple[str, str, str]] = []   # (clause, sig, detail) observed on the wire
         self.auth_mac_checked = 0
         self.wrappers_checked = 0
@@ -148,6 +149,8 @@ class SecureGateway(SimGateway):
                     self.violations.append(("C28.handshake-mac", "session-authenticate-mac-differs",
                                             f"{ibody[2:18].hex()} != {want.hex()}"))
                 st = self.auth_result if ok else ST_AUTH_FAILED
+                if ok and self.auth_results:
+                    st = self.auth_results.pop(0)       # scripted per authentication (then auth_result)
                 s.authenticated = st == ST_AUTH_SUCCESS
                 self.send_wrapped(s, W.frame(W.SESSION_STATUS, bytes((st, 0))))
             return
